@@ -275,6 +275,7 @@ DEFAULT_SPEC = {
     'max_gb': 1.0, 'n_extra_genes': None, 'extra_first': False,
     'h5_layout': None, 'level_pool': None, 'unsorted_indices': None,
     'full_cells': 0, 'query_order': None, 'flat_cells': 0,
+    'root_only_cells': 0,
 }
 
 
@@ -424,6 +425,23 @@ def build_world(spec, work):
             z = Xq[i] == 0
             Xq[i, z] = np.floor(rng.uniform(1, 4, size=int(z.sum()))) \
                 if raw else rng.uniform(0.1, 1.0, size=int(z.sum()))
+    if s.get('root_only_cells'):
+        # cells that express nothing but genes listed for the root alone:
+        # they are routed by the root and are constant (all zero) on the
+        # markers of every deeper parent
+        deeper = set()
+        for k, v in table.items():
+            if k != 'None':
+                deeper |= set(v)
+        only = [j for j, g in enumerate(query_genes)
+                if g in set(table.get('None', [])) and g not in deeper]
+        if len(only) >= 2:
+            for k in range(min(int(s['root_only_cells']), n_cells)):
+                row = np.zeros(len(query_genes))
+                vals = rng.uniform(1, 9, size=len(only))
+                row[only] = np.floor(2 ** vals) if raw else vals
+                Xq[k] = row
+            w.root_only_cells = min(int(s['root_only_cells']), n_cells)
     if s.get('flat_cells'):
         # cells with one and the same non-zero value in every gene
         vals = [5.0, 3.0, 7.0, 0.1, 11.0, 2.0, 13.0, 1.0] if raw else \
